@@ -230,11 +230,12 @@ func runHeld(qu queue, held op, rels []op) (rRels []obs, rHeld obs, hung bool) {
 			}
 		}
 	}
-	t := time.NewTimer(hangTimeout)
+	t := time.NewTimer(hangTimeout())
 	defer t.Stop()
 	select {
 	case rHeld = <-res:
 	case <-t.C:
+		noteHang()
 		return rRels, obs{"other", otherHang}, true
 	}
 	qu.noteHeld(held, rHeld)
@@ -343,7 +344,7 @@ func runCaseX(e *vh.Env, sp spec, ops []op, gen string, runLength bool, class st
 			qu.release()
 			break
 		}
-		if r.tag == "other" { // a panic / foreign value / ErrSync: the state of the queue is unknown from here on
+		if r.tag == "other" || qu.lost() { // a panic / foreign value / ErrSync / an item that was not pending: state unknown from here on
 			break
 		}
 	}
@@ -557,6 +558,10 @@ func genRandom(r *rand.Rand, kind string, maxLen int) []op {
 				}
 				ops = append(ops, rel)
 				i++
+				if rel.code == "c" && hcode[1] == 'w' {
+					ops = append(ops, op{code: "y"})
+					i++
+				}
 			}
 		}
 	}
@@ -1011,7 +1016,7 @@ func main() {
 			if focus != "" {
 				n = per * 4
 			}
-			for i := 0; i < n && hangs[k] < 3; i++ {
+			for i := 0; i < n && hangs[k] < 10; i++ {
 				sp := spec{kind: k, caps: pickCaps(e.Rnd, k)}
 				runCase(e, sp, genRandom(e.Rnd, k, maxLen), "random")
 			}
@@ -1025,7 +1030,7 @@ func main() {
 			if focus != "" && focus != k {
 				continue
 			}
-			for i := e.Scale(150, 1500); i > 0 && hangs[k] < 3; i-- {
+			for i := e.Scale(150, 1500); i > 0 && hangs[k] < 20; i-- {
 				sp, ops := genHold(e.Rnd, k)
 				runCase(e, sp, ops, "held-calls")
 				nheld++
@@ -1045,6 +1050,9 @@ func main() {
 					hs = []int{3}
 				}
 				for hi, h := range hs {
+					if hangs[ak.kind] >= 30 {
+						continue
+					}
 					sp, ops := genBacklog(ak, b, h, bi+hi+len(ak.code))
 					runCaseX(e, sp, ops, "backlog", true, "backlog "+kindName[ak.kind])
 					nb++
